@@ -75,10 +75,18 @@ class ValGen(object):
         for _ in range(50):
             type_name = desc['type']
 
+            if 'actual-parameters' in desc:
+                # X.683 parameterized type: instantiate the template with
+                # the actual parameters (on a private copy).
+                desc, module_name = self.instantiate(desc, module_name)
+                chain.append(desc)
+
+                continue
+
             if type_name in KNOWN or 'members' in desc or 'element' in desc:
                 return desc, module_name, chain
 
-            if '&' in type_name or 'actual-parameters' in desc:
+            if '&' in type_name:
                 raise Unsupported(type_name)
 
             desc, module_name = self.lookup('types', type_name, module_name)
@@ -89,6 +97,69 @@ class ValGen(object):
             chain.append(desc)
 
         raise Unsupported('reference loop')
+
+    def instantiate(self, desc, module_name):
+        import copy
+
+        template, template_module = self.lookup('types', desc['type'],
+                                                module_name)
+
+        if 'parameters' not in template:
+            raise Unsupported('not parameterized')
+
+        dummies = template['parameters']
+        actuals = desc['actual-parameters']
+
+        if len(dummies) != len(actuals):
+            raise Unsupported('parameter count')
+
+        instance = copy.deepcopy(template)
+        del instance['parameters']
+
+        def substitute(node):
+            if node is EXT:
+                return
+
+            if isinstance(node, list):
+                for item in node:
+                    substitute(item)
+
+                return
+
+            for member in node.get('members', []):
+                substitute(member)
+
+            if 'element' in node:
+                substitute(node['element'])
+
+            for dummy, actual in zip(dummies, actuals):
+                if node.get('type') == dummy:
+                    node.update(copy.deepcopy(actual))
+
+                for index, parameter in enumerate(
+                        node.get('actual-parameters', [])):
+                    if parameter.get('type') == dummy:
+                        node['actual-parameters'][index] = copy.deepcopy(
+                            actual)
+
+                for key in ('size', 'restricted-to'):
+                    if key in node:
+                        replaced = []
+
+                        for item in node[key]:
+                            if isinstance(item, tuple):
+                                item = tuple(actual if v == dummy else v
+                                             for v in item)
+                            elif item == dummy:
+                                item = actual
+
+                            replaced.append(item)
+
+                        node[key] = replaced
+
+        substitute(instance)
+
+        return instance, template_module
 
     def top_types(self):
         """(module, type) pairs usable through Specification.encode (unique
